@@ -62,7 +62,11 @@ def activity(cfg, log, label):
     from fandango import Fandango
 
     try:
-        if cfg.get("file"):
+        if cfg.get("path"):
+            # a spec file of the check's own making (may include() neighbours): loaded the way the CLI / API load files
+            with open(cfg["path"]) as fh:
+                f = Fandango(fh, use_stdlib=cfg.get("use_stdlib", False), use_cache=False)
+        elif cfg.get("file"):
             from vf.gen import harvest
             f, _ = harvest.load(cfg["file"])
         else:
